@@ -377,7 +377,7 @@ func codeList(m map[int64]bool) (out []int64) {
 // ---- client side: getput.Get against simulated nodes ----------------------------------------------------------
 
 // node behaviours for a get traversal
-var c12NodeBeh = []string{"nothing", "seq1", "seq2", "forgedv", "otherkey", "noseq", "badsig", "imm", "immwrong", "seq2-notoken", "seq3-othersalt"}
+var c12NodeBeh = []string{"nothing", "seq1", "seq2", "forgedv", "otherkey", "noseq", "badsig", "imm", "immwrong", "seq2-notoken", "seq3-othersalt", "replay2-forged", "replay2-higher"}
 
 func c12NodeExtra(beh string) (extra sim.M, token *string) {
 	salt := []byte("s")
@@ -398,6 +398,12 @@ func c12NodeExtra(beh string) (extra sim.M, token *string) {
 		return mk(pk, bepKey1, salt, 2, "two", "two"), nil
 	case "forgedv":
 		return mk(pk, bepKey1, salt, 9, "nine", "forged"), token
+	case "replay2-forged": // the genuine seq-2 signature replayed over another value
+		return mk(pk, bepKey1, salt, 2, "two", "forged"), token
+	case "replay2-higher": // ... and claiming a higher seq
+		m := mk(pk, bepKey1, salt, 2, "two", "forged")
+		m["seq"] = 5
+		return m, token
 	case "otherkey":
 		return mk(pk2, bepKey2, salt, 8, "eight", "eight"), token
 	case "seq3-othersalt":
@@ -571,7 +577,7 @@ func permutations(n int) (out [][]int) {
 func TestC12(t *testing.T) {
 	w := explore.NewWorker("C12")
 	defer w.Finish()
-	w.SetRule("store side: puts from a generator (immutable values of 6 shapes incl. encodings of exactly 999/1000/1001 bytes; mutable puts over 2 keys x salts of 0/1/64/65 bytes x seq 0..2 x signature in {valid, made for another salt / seq / value / key, 3 single-bit flips, zero}) sent over the wire with a fresh token and directly into bep44.Wrapper with a recording store, as singles and as all ordered pairs (quick: of a core subset; thorough: of all), each step followed by a get for every target and every value hash ever mentioned; reference: accept iff encoded value <= 1000 bytes and (immutable or (salt <= 64 bytes and ed25519 signature verifies)), rejected puts carry an applicable code of 205/206/207 and cause no Store.Put, every served value re-verifies under its target; client side: getput.Get on a mutable and an immutable target against 1-3 simulated nodes, each answering from 11 behaviours (genuine seq 1/2, forged value under a genuine signature, another key, matching key without seq, bad signature, another salt, immutable genuine / wrong hash, no token, nothing), all assignments x all reply orders (and time-outs)")
+	w.SetRule("store side: puts from a generator (immutable values of 6 shapes incl. encodings of exactly 999/1000/1001 bytes; mutable puts over 2 keys x salts of 0/1/64/65 bytes x seq 0..2 x signature in {valid, made for another salt / seq / value / key, 3 single-bit flips, zero}) sent over the wire with a fresh token and directly into bep44.Wrapper with a recording store, as singles and as all ordered pairs (quick: of a core subset; thorough: of all), each step followed by a get for every target and every value hash ever mentioned; reference: accept iff encoded value <= 1000 bytes and (immutable or (salt <= 64 bytes and ed25519 signature verifies)), rejected puts carry an applicable code of 205/206/207 and cause no Store.Put, every served value re-verifies under its target; client side: getput.Get on a mutable and an immutable target against 1-3 simulated nodes, each answering from 13 behaviours (genuine seq 1/2, forged value under a genuine signature, another key, matching key without seq, bad signature, another salt, a genuine signature replayed over another value / seq, immutable genuine / wrong hash, no token, nothing), all assignments x all reply orders (and time-outs)")
 	idx := 0
 	do := func(unit string, h []string) {
 		c := explore.Case{Prop: "C12", Unit: unit, H: h}
